@@ -188,7 +188,19 @@ def norm_stmt(n, out, ind):
         first = [c for c in inner[0].get('inner', []) if isinstance(c, dict) and c.get('kind')][0]
         c = cxx2coq.find_assert_cond(first)
         out.append(pad + 'MOMO_CHECK ' + (rx(c) if c is not None else '?')); return ('expr', '')
-    if k in ('DoStmt', 'ForStmt', 'SwitchStmt', 'GotoStmt'):
+    if k == 'ForStmt':
+        ini, _cv, cnd, inc, bod = inner[0], inner[1], inner[2], inner[3], inner[4]
+        il = []
+        if isinstance(ini, dict) and ini.get('kind'):
+            norm_stmt(ini, il, 0)
+        cs = rx(cnd) if isinstance(cnd, dict) and cnd.get('kind') else 'true'
+        out.append('%sfor (%s; %s; %s) {' % (pad, ' ; '.join(x.strip() for x in il), cs, rx(inc) if isinstance(inc, dict) and inc.get('kind') else ''))
+        body = norm_stmt(bod, out, ind + 1)
+        out.append(pad + '}')
+        if events_of(cs):
+            raise Deviation('protocol event in a for condition')
+        return ('while', 'cond', body)
+    if k in ('DoStmt', 'SwitchStmt', 'GotoStmt'):
         raise Deviation('unsupported statement kind %s' % k)
     # expression statement (MOMO_ASSERT expands to a conditional around __assert_fail)
     if k in ('ConditionalOperator', 'CStyleCastExpr', 'ParenExpr', 'CXXFunctionalCastExpr', 'CXXStaticCastExpr') and cxx2coq.is_assert_stmt(n):
@@ -494,6 +506,9 @@ TABLE_MEMBERS = [('DataTable::pvCreateRawMemPool', 'pvCreateRawMemPool', ('CXXMe
 # pvCreateRaw / pvDestroyRaw / pvDestroyRaws / ExtractRaw (all modelled); pinned so that a new direct use of the pool or the list is noticed
 EXPECTED_TEXT.update({'DataTable::pvImportRaw': 'var rawCreator = lambda{ this->GetColumnList().ImportRaw(this->GetMemManager(), srcColumnList, srcRaw, raw) }\nreturn this->pvCreateRaw(rawCreator)', 'DataTable::pvCreateRaw()': 'var rawCreator = lambda{ this->GetColumnList().CreateRaw(this->GetMemManager(), raw) }\nreturn this->pvCreateRaw(rawCreator)', 'DataTable::TryInsert': 'MOMO_CHECK cast(((checkMode != assertion) || (rowNumber <= this->GetCount())))\nvar res = this->TryAdd(move(row))\nif res.operator bool() {\n  rotate(Next(this->mRaws.GetBegin(), rowNumber), prev(this->mRaws.GetEnd(), <default>), this->mRaws.GetEnd())\n  this->pvSetNumbers(rowNumber)\n}\nreturn construct(res)', 'DataTable::TryUpdate(rowNumber,Row&&)': 'MOMO_CHECK cast(((checkMode != assertion) || (rowNumber < this->GetCount())))\nvar raw = op(operator[], this->mRaws, rowNumber)\nvar res = this->mIndexes.UpdateRaw(raw, row.GetRaw())\nif (res.raw != null) {\n  return {this->pvMakeRowReference(res.raw), res.uniqueHashIndex}\n}\nthis->pvDestroyRaw(raw)\n(raw = ExtractRaw(row))\nthis->pvSetNumber(raw, rowNumber)\n(++this->mCrew.GetChangeVersion())\n(++this->mCrew.GetRemoveVersion())\nreturn {this->pvMakeRowReference(raw), empty}', 'DataTable::pvFill (table copy construction)': 'var columnList = this->GetColumnList()\nif value {\n  this->Reserve(rows.GetCount())\n}\ntry {\n  for rowRef in rows {\n    if (!op(operator(), rowFilter, construct(rowRef))) {\n      continue\n    }\n    this->mRaws.Reserve((this->mRaws.GetCount() + 1))\n    var raw = this->pvImportRaw(columnList, rowRef.GetRaw())\n    try {\n      this->mIndexes.AddRaw(raw)\n    } catch (...) {\n      this->pvDestroyRaw(raw)\n      throw\n    }\n    this->mRaws.AddBackNogrow(raw)\n  }\n} catch (...) {\n  this->pvDestroyRaws()\n  this->mRaws.Clear(<default>)\n  throw\n}\nthis->pvSetNumbers(<default>)', 'DataTable::pvRemove(rowFilter)': 'var rawSet = construct(construct(), construct(this->GetMemManager()))\nfor raw in this->mRaws {\n  if op(operator(), rowFilter, this->pvMakeConstRowReference(raw)) {\n    rawSet.Insert(raw)\n  }\n}\nvar rawFilter = lambda{ return (!rawSet.ContainsKey(raw)) }\nthis->pvFilterRaws(construct(rawFilter))'})
 TABLE_MEMBERS += [('DataTable::pvImportRaw', 'pvImportRaw', ('CXXMethodDecl',), {}), ('DataTable::pvCreateRaw()', 'pvCreateRaw', ('CXXMethodDecl',), {'nparams': 0}), ('DataTable::TryInsert', 'TryInsert', ('CXXMethodDecl',), {}), ('DataTable::TryUpdate(rowNumber,Row&&)', 'TryUpdate', ('CXXMethodDecl',), {'first_param': 'size_t'}), ('DataTable::pvFill (table copy construction)', 'pvFill', ('CXXMethodDecl',), {}), ('DataTable::pvRemove(rowFilter)', 'pvRemove', ('CXXMethodDecl',), {'nparams': 1})]
+# bulk removal: Assign(begin,end), Remove(begin,end), Remove(filter) all end in pvFilterRaws, which gives every filtered-out raw to pvDestroyRaw
+EXPECTED_TEXT.update({'DataTable::pvFilterRaws (the only bulk caller of pvDestroyRaw)': 'this->mIndexes.FilterRaws(construct(rawFilter))\nvar count = 0\nfor raw in this->mRaws {\n  if (!op(operator(), rawFilter, raw)) {\n    this->pvDestroyRaw(raw)\n    continue\n  }\n  (op(operator[], this->mRaws, count) = raw)\n  (++count)\n}\nthis->mRaws.RemoveBack((this->mRaws.GetCount() - count))\n(++this->mCrew.GetChangeVersion())\n(++this->mCrew.GetRemoveVersion())', 'DataTable::pvAssign(begin,end)': 'var rawMap = construct(construct(), construct(this->GetMemManager()))\nvar count = 0\nfor (var iter = construct(move(begin)); op(operator!=, construct(iter), construct(end)); op(operator++, iter)) {\n  var rowRef = construct(op(operator*, iter))\n  MOMO_CHECK cast(((checkMode != assertion) || ((&rowRef.GetColumnList()) == (&this->GetColumnList()))))\n  rowRef.GetRaw()\n  var raw = GetRaw(rowRef)\n  if rawMap.Insert(raw, count).inserted {\n    (++count)\n  }\n}\nvar rawFilter = lambda{ return rawMap.ContainsKey(raw) }\nthis->pvFilterRaws(construct(rawFilter))\nfor (var i = 0; (i < count); (++i)) {\n  var raw = op(operator[], this->mRaws, i)\n  while true {\n    var number = op(operator[], rawMap, raw)\n    if (number == i) {\n      break\n    }\n    swap(raw, op(operator[], this->mRaws, number))\n  }\n}', 'DataTable::pvRemove(begin,end)': 'var rawSet = construct(construct(), construct(this->GetMemManager()))\nfor (var iter = construct(move(begin)); op(operator!=, construct(iter), construct(end)); op(operator++, iter)) {\n  var rowRef = construct(op(operator*, iter))\n  MOMO_CHECK cast(((checkMode != assertion) || ((&rowRef.GetColumnList()) == (&this->GetColumnList()))))\n  rowRef.GetRaw()\n  rawSet.Insert(GetRaw(rowRef))\n}\nvar rawFilter = lambda{ return (!rawSet.ContainsKey(raw)) }\nthis->pvFilterRaws(construct(rawFilter))'})
+TABLE_MEMBERS += [('DataTable::pvFilterRaws (the only bulk caller of pvDestroyRaw)', 'pvFilterRaws', ('CXXMethodDecl',), {}), ('DataTable::pvAssign(begin,end)', 'pvAssign', ('CXXMethodDecl',), {}), ('DataTable::pvRemove(begin,end)', 'pvRemove', ('CXXMethodDecl',), {'nparams': 2})]
 ROW_MEMBERS = [('DataRow(DataRow&&)', 'DataRow', ('CXXConstructorDecl',), {'nparams': 1, 'first_param': '&&'}),
                ('DataRow(columnList,raw,freeRaws)', 'DataRow', ('CXXConstructorDecl',), {'nparams': 3}),
                ('DataRow::operator=(DataRow&&)', 'operator=', ('CXXMethodDecl',), {'first_param': '&&'}),
